@@ -334,7 +334,7 @@ def run_config(fn, params, cfg_key, seed=0, tier="quick", options=None, max_path
     for e in res["violations"]:
         e.pop("phash", None)
         e.pop("plan", None)
-    if res["engine_errors"] and not res["paths"]:
+    if res["engine_errors"] and (not res["paths"] or res.get("vacuity_ok") is False):
         # the code under test left the encodable fragment (no symbolic path completed). No 'holds' verdict is possible,
         # but the concrete run of the same harness on the real code is still a replayed execution: an obligation it
         # violates is a genuine counterexample and is reported as such (the engine error is kept as well).
